@@ -200,11 +200,21 @@ func tokCommand(label string) command.Command {
 		return command.New("a/")
 	case "Top.Join(é)":
 		return command.Top().Join("é")
+	case "New(a,b )":
+		return command.New("a", "b ")
+	case "New( a)":
+		return command.New(" a")
+	case "cast(/a\\n)":
+		return command.Command("/a\n")
+	case "cast(/a\\tb/c)":
+		return command.Command("/a\tb/c")
+	case "New(a\u00a0)":
+		return command.New("a\u00a0")
 	}
 	panic("bad command label " + label)
 }
 
-var tokCommandLabels = []string{"/a", "/", "/a/b", "New(a,b)", "New()", "New(A)", "New(a/b)", "New(a/)", "Top.Join(é)"}
+var tokCommandLabels = []string{"/a", "/", "/a/b", "New(a,b)", "New()", "New(A)", "New(a/b)", "New(a/)", "Top.Join(é)", "New(a,b )", "New( a)", "cast(/a\\n)", "cast(/a\\tb/c)", "New(a\u00a0)"}
 
 func metaLabels() []string {
 	r := []string{"none"}
